@@ -420,3 +420,16 @@ func (w *World) SentMultiset(n *Node) []string {
 	sort.Strings(out)
 	return out
 }
+
+// Describe resolves an emitted message (wire bytes, routing, recipients) without queueing it.
+// Used by the concurrent driver (C09), which delivers from its own goroutines.
+func (w *World) Describe(n *Node, tm tss.Message) (*Msg, error) {
+	wire, routing, err := tm.WireBytes()
+	if err != nil {
+		return nil, err
+	}
+	m := &Msg{From: n, Type: tm.Type(), Short: short(tm.Type()), Wire: wire, Bcast: routing.IsBroadcast,
+		ToOld: routing.IsToOldCommittee, ToOldAndNew: routing.IsToOldAndNewCommittees, To: routing.To, Orig: tm}
+	m.Recips = w.route(m)
+	return m, nil
+}
